@@ -549,6 +549,8 @@ def check_C02(ctx):
         (b'm', {b'm': b'x := RUN f WITH'}), (b'm', {b'm': b'PROGRAM'}), (b'm', {b'm': b'PROGRAM f IN'}), (b'm', {b'm': b'PROGRAM f IN a OUT'}),
         (b'm', {b'm': b'LOOP'}), (b'm', {b'm': b'IF x = 1 THEN GOTO'}), (b'm', {b'm': b'l:'}), (b'm', {b'm': b'; ; ;'}),
         (b'm', {b'm': b'include "m"'}), (b'__standards__', {}), (b'm', {b'm': b'x := 1', b'__standards__': b'DEFINE'}),
+        (b'm', {b'm': b'', b'__standards__': b'x := RUN f WITH END'}), (b'm', {b'm': b'', b'__standards__': b'GOTO m'}),
+        (b'm', {b'm': b'include "__standards__"', b'__standards__': b'x := 99999999999; LOOP x DO y := RUN g WITH 1 END END'}),
     ]
     for m, f in corpus:
         cases.append((m, f, {'text': {k.decode('latin1'): v.decode('latin1') for k, v in f.items()}, 'corpus': True}))
